@@ -3,12 +3,17 @@
 // (PolyVerif/Gen/SplatPlyTable.lean).
 //
 // Extracted (a shape that is not the expected one is an error — the extractor never guesses):
-//   modeling/attribute.go   const X = "..."                    attribute constant values
-//   formats/ply/types.go    func (sa SplatPly) Write: the literal `writers := []PropertyWriter{ VectorNPropertyWriter{...}, ... }`
-//                           -> (model attribute, scalar type, ply property names in order)
-//                           (the f_rest_%d writers appended in a loop are not part of the literal)
-//   formats/ply/reader.go   var defaultReader ... Properties: []PropertyReader{ &VectorNPropertyReader{...}, ... }
-//                           -> (model attribute, ply property names in order)
+//
+//	modeling/attribute.go   const X = "..."                    attribute constant values
+//	formats/ply/types.go    func (sa SplatPly) Write: the literal `writers := []PropertyWriter{ VectorNPropertyWriter{...}, ... }`
+//	                        -> (model attribute, scalar type, ply property names in order)
+//	                        and the loop that appends the higher-order harmonics, which must have exactly the shape
+//	                          harmonics := <int literal>
+//	                          for i := 0; i < harmonics; i++ { writers = append(writers, Vector1PropertyWriter{
+//	                              ModelAttribute: fmt.Sprintf(<fmt>, i), PlyProperty: fmt.Sprintf(<fmt>, i), Type: <T> }) }
+//	                        -> count, the two format strings, the type (any other shape is an error)
+//	formats/ply/reader.go   var defaultReader ... Properties: []PropertyReader{ &VectorNPropertyReader{...}, ... }
+//	                        -> (model attribute, ply property names in order), and LoadUnspecifiedProperties
 package main
 
 import (
@@ -136,6 +141,131 @@ func c15slice(e ast.Expr, elt string, consts map[string]string) ([]c15entry, err
 	return out, nil
 }
 
+// fmt.Sprintf("<format>", i) -> format
+func c15sprintf(e ast.Expr, loopVar string) (string, error) {
+	call, ok := e.(*ast.CallExpr)
+	if !ok || len(call.Args) != 2 {
+		return "", fmt.Errorf("expected fmt.Sprintf(format, %s)", loopVar)
+	}
+	if sel, ok := call.Fun.(*ast.SelectorExpr); !ok || sel.Sel.Name != "Sprintf" {
+		return "", fmt.Errorf("expected fmt.Sprintf")
+	}
+	bl, ok := call.Args[0].(*ast.BasicLit)
+	if !ok || bl.Kind != token.STRING {
+		return "", fmt.Errorf("Sprintf format is not a literal")
+	}
+	if id, ok := call.Args[1].(*ast.Ident); !ok || id.Name != loopVar {
+		return "", fmt.Errorf("Sprintf argument is not the loop variable")
+	}
+	return strconv.Unquote(bl.Value)
+}
+
+type c15rest struct {
+	count            int
+	attrFmt, propFmt string
+	typ              string
+}
+
+func c15restLoop(body []ast.Stmt) (c15rest, error) {
+	var r c15rest
+	haveCount := false
+	for idx, st := range body {
+		as, ok := st.(*ast.AssignStmt)
+		if !ok || len(as.Lhs) != 1 || len(as.Rhs) != 1 {
+			continue
+		}
+		id, ok := as.Lhs[0].(*ast.Ident)
+		if !ok || id.Name != "harmonics" {
+			continue
+		}
+		bl, ok := as.Rhs[0].(*ast.BasicLit)
+		if !ok || bl.Kind != token.INT || as.Tok != token.DEFINE {
+			return r, fmt.Errorf("`harmonics` is not defined by an int literal")
+		}
+		n, err := strconv.Atoi(bl.Value)
+		if err != nil {
+			return r, err
+		}
+		r.count = n
+		haveCount = true
+		if idx+1 >= len(body) {
+			return r, fmt.Errorf("no statement after `harmonics := ...`")
+		}
+		fs, ok := body[idx+1].(*ast.ForStmt)
+		if !ok {
+			return r, fmt.Errorf("statement after `harmonics := ...` is %T, expected the for loop", body[idx+1])
+		}
+		// for i := 0; i < harmonics; i++
+		init, ok := fs.Init.(*ast.AssignStmt)
+		if !ok || len(init.Lhs) != 1 || len(init.Rhs) != 1 {
+			return r, fmt.Errorf("for init")
+		}
+		lv := init.Lhs[0].(*ast.Ident).Name
+		if z, ok := init.Rhs[0].(*ast.BasicLit); !ok || z.Value != "0" {
+			return r, fmt.Errorf("loop does not start at 0")
+		}
+		cond, ok := fs.Cond.(*ast.BinaryExpr)
+		if !ok || cond.Op != token.LSS {
+			return r, fmt.Errorf("loop condition is not `<`")
+		}
+		if a, ok := cond.X.(*ast.Ident); !ok || a.Name != lv {
+			return r, fmt.Errorf("loop condition lhs")
+		}
+		if b, ok := cond.Y.(*ast.Ident); !ok || b.Name != "harmonics" {
+			return r, fmt.Errorf("loop bound is not `harmonics`")
+		}
+		if inc, ok := fs.Post.(*ast.IncDecStmt); !ok || inc.Tok != token.INC {
+			return r, fmt.Errorf("loop post is not ++")
+		}
+		if len(fs.Body.List) != 1 {
+			return r, fmt.Errorf("loop body has %d statements", len(fs.Body.List))
+		}
+		ap, ok := fs.Body.List[0].(*ast.AssignStmt)
+		if !ok || len(ap.Rhs) != 1 {
+			return r, fmt.Errorf("loop body is not `writers = append(...)`")
+		}
+		call, ok := ap.Rhs[0].(*ast.CallExpr)
+		if !ok || len(call.Args) != 2 {
+			return r, fmt.Errorf("loop body is not append(writers, X)")
+		}
+		if f, ok := call.Fun.(*ast.Ident); !ok || f.Name != "append" {
+			return r, fmt.Errorf("loop body is not append")
+		}
+		cl, ok := call.Args[1].(*ast.CompositeLit)
+		if !ok {
+			return r, fmt.Errorf("appended value is not a composite literal")
+		}
+		if tn, ok := cl.Type.(*ast.Ident); !ok || tn.Name != "Vector1PropertyWriter" {
+			return r, fmt.Errorf("appended value is not a Vector1PropertyWriter")
+		}
+		for _, el := range cl.Elts {
+			kv, ok := el.(*ast.KeyValueExpr)
+			if !ok {
+				return r, fmt.Errorf("positional field in the harmonics writer")
+			}
+			switch kv.Key.(*ast.Ident).Name {
+			case "ModelAttribute":
+				r.attrFmt, err = c15sprintf(kv.Value, lv)
+			case "PlyProperty":
+				r.propFmt, err = c15sprintf(kv.Value, lv)
+			case "Type":
+				if t, ok := kv.Value.(*ast.Ident); ok {
+					r.typ = strings.ToLower(t.Name)
+				}
+			default:
+				err = fmt.Errorf("unexpected field %s", kv.Key.(*ast.Ident).Name)
+			}
+			if err != nil {
+				return r, err
+			}
+		}
+	}
+	if !haveCount || r.attrFmt == "" || r.propFmt == "" || r.typ == "" {
+		return r, fmt.Errorf("harmonics loop not found in the expected shape")
+	}
+	return r, nil
+}
+
 func c15str(s string) string { return strconv.Quote(s) }
 
 func c15list(ss []string) string {
@@ -185,12 +315,27 @@ func c15SplatPly(repo, out string, args []string) error {
 	if !found {
 		return fmt.Errorf("types.go: `writers := []PropertyWriter{...}` not found in SplatPly.Write")
 	}
+	var rest c15rest
+	for _, d := range tf.Decls {
+		fd, ok := d.(*ast.FuncDecl)
+		if !ok || fd.Name.Name != "Write" || fd.Recv == nil || len(fd.Recv.List) != 1 {
+			continue
+		}
+		if id, ok := fd.Recv.List[0].Type.(*ast.Ident); !ok || id.Name != "SplatPly" {
+			continue
+		}
+		rest, err = c15restLoop(fd.Body.List)
+		if err != nil {
+			return fmt.Errorf("types.go SplatPly.Write harmonics loop: %w", err)
+		}
+	}
 	// reader table
 	rf, err := parser.ParseFile(fset, filepath.Join(repo, "formats", "ply", "reader.go"), nil, 0)
 	if err != nil {
 		return err
 	}
 	var readers []c15entry
+	loadUnspecified := false
 	found = false
 	for _, d := range rf.Decls {
 		gd, ok := d.(*ast.GenDecl)
@@ -210,6 +355,11 @@ func c15SplatPly(repo, out string, args []string) error {
 				kv, ok := el.(*ast.KeyValueExpr)
 				if !ok {
 					continue
+				}
+				if k, ok := kv.Key.(*ast.Ident); ok && k.Name == "LoadUnspecifiedProperties" {
+					if v, ok := kv.Value.(*ast.Ident); ok && v.Name == "true" {
+						loadUnspecified = true
+					}
 				}
 				if k, ok := kv.Key.(*ast.Ident); ok && k.Name == "Properties" {
 					readers, err = c15slice(kv.Value, "PropertyReader", consts)
@@ -247,6 +397,9 @@ func c15SplatPly(repo, out string, args []string) error {
 	}
 	sb.WriteString("]\n\n/-- the five gaussian-splat attributes (modeling/attribute.go) -/\n")
 	fmt.Fprintf(&sb, "def splatAttributes : List String := %s\n\n", c15list([]string{consts["PositionAttribute"], consts["FDCAttribute"], consts["ScaleAttribute"], consts["RotationAttribute"], consts["OpacityAttribute"]}))
+	sb.WriteString("/-- the harmonics loop of `SplatPly.Write`: `for i := 0; i < restCount; i++` appends a Vector1PropertyWriter with\n    ModelAttribute = Sprintf(restAttrFormat, i), PlyProperty = Sprintf(restPropFormat, i), Type = restType -/\n")
+	fmt.Fprintf(&sb, "def restCount : Nat := %d\ndef restAttrFormat : String := %s\ndef restPropFormat : String := %s\ndef restType : String := %s\n\n", rest.count, c15str(rest.attrFmt), c15str(rest.propFmt), c15str(rest.typ))
+	fmt.Fprintf(&sb, "/-- `defaultReader.LoadUnspecifiedProperties`: a property no reader claims is loaded as a scalar attribute of its own name -/\ndef readerLoadsUnspecified : Bool := %v\n\n", loadUnspecified)
 	sb.WriteString("end PolyVerif.Gen.SplatPlyTable\n")
 	return os.WriteFile(out, []byte(sb.String()), 0o644)
 }
